@@ -54,15 +54,12 @@ func runC10(p *Prog, r *Report, tier string) {
 		if !ok {
 			return
 		}
-		b, ok := i.Cond.(*ssa.BinOp)
-		if !ok || !isFieldLoad(b.X, "pkg/collector.CollectingProcess.protocol") {
-			return
-		}
-		if s, ok := constString(b.Y); ok && s == "udp" {
-			if b.Op == token.NEQ {
-				udpEdge = i.Block().Succs[1]
-			} else if b.Op == token.EQL {
-				udpEdge = i.Block().Succs[0]
+		for _, cf := range cmpForms(i.Cond) {
+			if cf.Op != token.EQL || !isFieldLoad(cf.X, "pkg/collector.CollectingProcess.protocol") {
+				continue
+			}
+			if s, ok := constString(cf.Y); ok && s == "udp" {
+				udpEdge = i.Block().Succs[cf.Succ]
 			}
 		}
 	})
